@@ -32,7 +32,9 @@ def battery(fqe, seed, tier):
     def put(name, arr):
         a = numpy.ascontiguousarray(numpy.asarray(arr))
         out[name] = hashlib.sha1(a.tobytes()).hexdigest()[:16] + f":{float(numpy.abs(a).sum()):.6g}"
-    shapes = [(6, 3, 3), (11, 1, 5), (11, 5, 1), (5, 2, 3), (4, 4, 0), (4, 0, 0), (3, 3, 3), (10, 1, 2), (10, 2, 1), (1, 1, 0)]
+    # (10, 5, 4): 252 x 210 coefficients, several 64 x 64 / 16 x 16 transpose tiles per thread; (12, 1, 6): 924 columns = 3 batches
+    shapes = [(6, 3, 3), (11, 1, 5), (11, 5, 1), (5, 2, 3), (4, 4, 0), (4, 0, 0), (3, 3, 3), (10, 1, 2), (10, 2, 1), (1, 1, 0),
+              (10, 5, 4), (12, 1, 6)]
     if tier != "quick":
         shapes += [(12, 2, 6), (7, 3, 4), (9, 4, 1)]
     for norb, na, nb in shapes:
@@ -86,6 +88,22 @@ def battery(fqe, seed, tier):
                 put(f"transform:{tag}", numpy.round(tw.get_coeff(key), 9))
             except Exception as exc:
                 out[f"transform:{tag}"] = "raise:" + type(exc).__name__
+        if norb >= 2:
+            # orbital rotation on every shape (column kernels, batches of 450 columns, transposes of the whole sector)
+            q = numpy.eye(norb, dtype=numpy.complex128)
+            hi = norb - 1
+            for (a, b, cs, sn) in ((0, 1, 0.6, 0.8), (0, hi, 0.8, 0.6), (1 % norb, hi, 0.6, -0.8)):
+                if a != b:
+                    gm = numpy.eye(norb, dtype=numpy.complex128)
+                    gm[a, a] = gm[b, b] = cs
+                    gm[a, b] = sn * 1j
+                    gm[b, a] = sn * 1j
+                    q = q @ gm
+            try:
+                _, _, _, tw = copy.deepcopy(w).transform(q)
+                put(f"rotate:{tag}", tw.get_coeff(key))
+            except Exception as exc:
+                out[f"rotate:{tag}"] = "raise:" + type(exc).__name__
     return out
 
 
